@@ -232,6 +232,8 @@ func (b *byzantine) rewriteBatch(src *node, ms []outMsg) []routed {
 	// forged proposal: replace the node's own proposal + its parts
 	if b.forge != "" {
 		ms = b.maybeForge(src, ms, &out)
+	} else if b.equivocate {
+		ms = b.maybeSplitProposal(src, ms, &out)
 	}
 	for _, m := range ms {
 		isCons := m.proto == module.ProtoConsensus
@@ -265,6 +267,13 @@ func (b *byzantine) rewriteBatch(src *node, ms []outMsg) []routed {
 			}
 			if _, bs := b.craftVote(src.w, vm.Height, vm.Round, vm.Type, vm.BlockID, vm.BlockPartSetIDAndNTSVoteCount, vm.Timestamp+7); bs != nil {
 				altsv = append(altsv, alt{"retimed", bs})
+			}
+			if vm.Type == consensus.VoteTypePrecommit && vm.BlockPartSetIDAndNTSVoteCount == nil {
+				// not a conflict at all: the very same signed nil precommit in a second wire form (an unsigned
+				// network-type section appended). Receivers that see both must not report it.
+				if bs := withUnsignedVoteSection(m.data, 1, bytes.Repeat([]byte{0x5a}, 32), []byte{1, 2, 3}); bs != nil {
+					altsv = append(altsv, alt{"same-vote-other-wire-form", bs})
+				}
 			}
 			for _, a := range altsv {
 				b.remember(fmt.Sprintf("%s/%d/%d/%d/%s", src.addr, vm.Height, vm.Round, vm.Type, a.name), a.data)
@@ -466,6 +475,39 @@ func badSignatureBytes(kind string, sig common.Signature) []byte {
 		}
 	}
 	return nil
+}
+
+// withUnsignedVoteSection re-encodes a vote message with one network-type entry (id, section hash, proof
+// part) appended. That part of a vote is not covered by its signature.
+func withUnsignedVoteSection(vote []byte, ntid int64, hash, proof []byte) []byte {
+	type nts struct {
+		ID    int64
+		Hash  []byte
+		Proof []byte
+	}
+	var in struct {
+		Sig     common.Signature
+		Height  int64
+		Round   int32
+		Type    consensus.VoteType
+		BlockID []byte
+		PSID    *consensus.PartSetIDAndAppData
+		TS      int64
+	}
+	if _, err := codec.BC.UnmarshalFromBytes(vote, &in); err != nil {
+		return nil
+	}
+	out := struct {
+		Sig     common.Signature
+		Height  int64
+		Round   int32
+		Type    consensus.VoteType
+		BlockID []byte
+		PSID    *consensus.PartSetIDAndAppData
+		TS      int64
+		NTS     []nts
+	}{in.Sig, in.Height, in.Round, in.Type, in.BlockID, in.PSID, in.TS, []nts{{ntid, hash, proof}}}
+	return codec.BC.MustMarshalToBytes(&out)
 }
 
 func medianTS(items []cvlItem) int64 {
@@ -670,6 +712,144 @@ func (b *byzantine) maybeForge(src *node, ms []outMsg, out *[]routed) []outMsg {
 	skip := map[int]bool{pi: true}
 	for _, i := range partIdx {
 		skip[i] = true
+	}
+	var rest []outMsg
+	for i, m := range ms {
+		if !skip[i] {
+			rest = append(rest, m)
+		}
+	}
+	return rest
+}
+
+// maybeSplitProposal: the equivocating proposer with two VALID blocks. When the Byzantine node is the
+// legitimate proposer (no proof-of-lock round), a sibling of its block is built - the same block with one
+// more transaction, or with its transactions dropped; header hashes recomputed, so every check passes - and
+// each validator receives the proposal, the parts and this node's prevote and precommit for one of the two,
+// by tape. Part of the correct validators import and prevote one block, part the other: agreement must
+// survive that (f < n/3), and nobody may finalize what was not precommitted by more than two thirds.
+func (b *byzantine) maybeSplitProposal(src *node, ms []outMsg, out *[]routed) []outMsg {
+	s, t := b.s, b.s.tape
+	pi := -1
+	var pm *consensus.ProposalMessage
+	for i, m := range ms {
+		if m.proto == module.ProtoConsensus && m.sub == consensus.ProtoProposal {
+			if msg, err := consensus.UnmarshalMessage(uint16(m.sub), m.data); err == nil {
+				if p, ok := msg.(*consensus.ProposalMessage); ok && signerOf(p.Signature, consensus.SimSignedBytes(p)) == src.addr.String() {
+					pi, pm = i, p
+					break
+				}
+			}
+		}
+	}
+	if pi < 0 || pm.POLRound >= 0 || src.inc == nil || src.inc.chain == nil || src.inc.chain.sm == nil || !t.Permille("byz.split", 500) {
+		return ms
+	}
+	ps := consensus.NewPartSetFromID(pm.BlockPartSetID)
+	var partIdx []int
+	for i, m := range ms {
+		if m.proto == module.ProtoConsensus && m.sub == consensus.ProtoBlockPart {
+			msg, err := consensus.UnmarshalMessage(uint16(m.sub), m.data)
+			if err != nil {
+				continue
+			}
+			bp := msg.(*consensus.BlockPartMessage)
+			if bp.Height != pm.Height {
+				continue
+			}
+			if p, err := consensus.NewPart(bp.BlockPart); err == nil && ps.AddPart(p) == nil {
+				partIdx = append(partIdx, i)
+			}
+		}
+	}
+	if !ps.IsComplete() {
+		return ms
+	}
+	orig, err := io.ReadAll(ps.NewReader())
+	if err != nil {
+		return ms
+	}
+	hf, bf, err := readBlock(orig)
+	if err != nil {
+		return ms
+	}
+	sm := src.inc.chain.sm
+	nh, nb := *hf, *bf
+	how := "plus-one-transaction"
+	if len(bf.NormalTransactions) > 0 && t.Permille("byz.split.strip", 500) {
+		nb.NormalTransactions = nil
+		how = "transactions-dropped"
+	} else {
+		extra := []byte(fmt.Sprintf(`{"timestamp":"0x%x","type":"test","varTest":"sibling-%d-%d"}`, common.UnixMicroFromTime(time.Now()), pm.Height, pm.Round))
+		nb.NormalTransactions = append(append([][]byte(nil), bf.NormalTransactions...), extra)
+	}
+	var txs []module.Transaction
+	for _, raw := range nb.NormalTransactions {
+		tx, err := sm.TransactionFromBytes(raw, module.BlockVersion2)
+		if err != nil {
+			return ms
+		}
+		txs = append(txs, tx)
+	}
+	nh.NormalTransactionsHash = sm.TransactionListFromSlice(txs, module.BlockVersion2).Hash()
+	sib, err := io.ReadAll(block.NewBlockReaderFromFormat(&nh, &nb))
+	if err != nil {
+		return ms
+	}
+	psb := consensus.NewPartSetBuffer(consensus.ConfigBlockPartSize)
+	_, _ = psb.Write(sib)
+	sps := psb.PartSet()
+	sid := crypto.SHA3Sum256(codec.BC.MustMarshalToBytes(&nh))
+	s.rc.Fault("byz_valid_sibling_proposed")
+	s.rc.Event("SPLIT-PROPOSAL n%d h=%d r=%d sibling=%s orig=%.12x sib=%.12x", src.idx, pm.Height, pm.Round, how, pm.BlockPartSetID.Hash, sps.ID().Hash)
+	// remember the sibling like any proposal seen on the wire (fast-sync lies and forgeries draw on it)
+	if id := hex.EncodeToString(sid); true {
+		if _, ok := b.blockTS[id]; !ok {
+			b.blockTS[id] = nh.Timestamp
+			b.blockByH[nh.Height] = append(b.blockByH[nh.Height], id)
+			b.rawBlocks[nh.Height] = append(b.rawBlocks[nh.Height], sib)
+		}
+	}
+	appData := uint64(0)
+	if as := b.alts[pm.Height-1]; len(as) > 0 && as[0].psid != nil {
+		appData = as[0].psid.AppData()
+	}
+	np := consensus.NewProposalMessage()
+	np.Height, np.Round, np.BlockPartSetID, np.POLRound, np.NID = pm.Height, pm.Round, sps.ID(), -1, pm.NID
+	_ = np.Sign(src.w)
+	sibProposal := codec.BC.MustMarshalToBytes(np)
+	skip := map[int]bool{pi: true}
+	for _, i := range partIdx {
+		skip[i] = true
+	}
+	for _, d := range s.nodes {
+		if d == src {
+			continue
+		}
+		mk := func(sub module.ProtocolInfo, data []byte) routed {
+			mm := ms[pi]
+			mm.kind, mm.dst, mm.sub, mm.data = sendUnicast, d.peerID, sub, data
+			return routed{d, mm}
+		}
+		if t.Permille("byz.split.side", 500) {
+			// the sibling: proposal, parts and this node's own votes for it
+			*out = append(*out, mk(consensus.ProtoProposal, sibProposal))
+			for i := 0; i < sps.Parts(); i++ {
+				bpm := &consensus.BlockPartMessage{Height: pm.Height, Index: uint16(i), BlockPart: sps.GetPart(i).Bytes(), Nonce: pm.Round}
+				*out = append(*out, mk(consensus.ProtoBlockPart, codec.BC.MustMarshalToBytes(bpm)))
+			}
+			for _, vt := range []consensus.VoteType{consensus.VoteTypePrevote, consensus.VoteTypePrecommit} {
+				if _, bs := b.craftVote(src.w, pm.Height, pm.Round, vt, sid, sps.ID().WithAppData(appData), common.UnixMicroFromTime(time.Now())); bs != nil {
+					*out = append(*out, mk(consensus.ProtoVote, bs))
+					s.rc.Probe("byz_conflicting_vote_sent")
+				}
+			}
+		} else {
+			*out = append(*out, mk(consensus.ProtoProposal, ms[pi].data))
+			for _, i := range partIdx {
+				*out = append(*out, mk(consensus.ProtoBlockPart, ms[i].data))
+			}
+		}
 	}
 	var rest []outMsg
 	for i, m := range ms {
@@ -1163,13 +1343,18 @@ func (b *byzantine) evidenceTick() {
 	if base == nil {
 		return
 	}
-	rel := []string{"genuine", "identical", "other-round", "other-height", "other-type", "other-signer", "other-network-nil", "other-network-block", "unspecified-network"}[t.Choose("ev.rel", 9)]
+	rel := []string{"genuine", "identical", "other-round", "other-height", "other-type", "other-signer", "other-network-nil", "other-network-block", "unspecified-network", "unsigned-section-differs"}[t.Choose("ev.rel", 10)]
 	var other []byte
 	switch rel {
 	case "genuine":
 		_, other = b.craftVote(w, h, r, vt, nilID(1), nil, ts+1)
 	case "identical":
 		other = base
+	case "unsigned-section-differs":
+		// one and the same signed vote in two wire forms: the copy carries an (unsigned) network-type
+		// section the original does not have. Same signature, same signed content: no evidence.
+		_, base = b.craftVote(w, h, r, consensus.VoteTypePrecommit, nilID(1), nil, ts)
+		other = withUnsignedVoteSection(base, int64(1+t.Choose("ev.ntid", 3)), t.Bytes("ev.ntshash", 32), t.Bytes("ev.ntsproof", 1+t.Choose("ev.ntsprooflen", 8)))
 	case "other-round":
 		_, other = b.craftVote(w, h, r+1, vt, nilID(1), nil, ts+1)
 	case "other-height":
